@@ -22,7 +22,7 @@ RULE = ("fault catalogue of hostile-but-well-formed client messages (unknown dev
 ASSUMPTIONS = ["a kind-mismatched but applicable write may be applied (only validly named elements may change)",
                "state partially applied before a failing child of a multi-child message is allowed",
                "spoofed def/set/del from a client may be relayed to other clients"]
-REQUIRED_EVENTS = ["sessions", "hostile_messages_injected", "trailing_requests_answered", "snapshots_compared",
+REQUIRED_EVENTS = ["sessions", "hostile_messages_injected", "trailing_requests_answered", "snapshots_compared", "same_element_followup_writes",
                    "tcp_sessions", "tty_sessions", "direct_sessions"]
 
 KINDS = ["Text", "Number", "Switch", "Light", "BLOB"]
@@ -102,6 +102,13 @@ def catalogue():
         ("invalid-number-text", new_vec("Number", "DEV", "NUMBER_V", [one_child("Number", "N0", "abc")]), set()),
         ("invalid-number-sexa4", new_vec("Number", "DEV", "NUMBER_V", [one_child("Number", "N0", "1:2:3:4")]), set()),
         ("empty-number-text", new_vec("Number", "DEV", "NUMBER_V", ['<oneNumber name="N0"/>']), {("NUMBER_V", "N0")}),
+        ("number-overflow-1e999", new_vec("Number", "DEV", "NUMBER_V", [one_child("Number", "N0", "1e999")]), {("NUMBER_V", "N0")}),
+        ("number-negative-overflow", new_vec("Number", "DEV", "NUMBER_V", [one_child("Number", "N0", "-1e999")]), {("NUMBER_V", "N0")}),
+        ("number-nan-as-text", new_vec("Text", "DEV", "NUMBER_V", [one_child("Text", "N0", "nan")]), {("NUMBER_V", "N0")}),
+        ("number-inf-as-text", new_vec("Text", "DEV", "NUMBER_V", [one_child("Text", "N0", "inf")]), {("NUMBER_V", "N0")}),
+        ("number-infinity-as-text", new_vec("Text", "DEV", "NUMBER_V", [one_child("Text", "N0", "-Infinity")]), {("NUMBER_V", "N0")}),
+        ("number-huge-sexagesimal", new_vec("Number", "DEV", "NUMBER_V", [one_child("Number", "N0", "1e400:30")]), set()),
+        ("number-underscore-as-text", new_vec("Text", "DEV", "NUMBER_V", [one_child("Text", "N0", "1_000")]), {("NUMBER_V", "N0")}),
         ("sexagesimal-to-printf-number", new_vec("Number", "DEV", "NUMBER_V", [one_child("Number", "N0", "1:30")]), {("NUMBER_V", "N0")}),
         ("number-as-text-garbage", new_vec("Text", "DEV", "NUMBER_V", [one_child("Text", "N0", "not a number")]), set()),
         ("invalid-base64", new_vec("BLOB", "DEV", "BLOB_V", [one_child("BLOB", "B0", "!!!*", ' size="3"')]), {("BLOB_V", "B0")}),
@@ -332,6 +339,39 @@ async def session(ctx, case, fault, transport, position, frag):
                 ctx.violate("later-valid-request-answer-differs", f"{name}: {diffs}", case, {"xml": text})
                 return
         ctx.count("trailing_requests_answered")
+        # a later VALID write to the very element the hostile message aimed at must still be applied and acknowledged
+        for (vn, en) in sorted(allowed):
+            kind = {"TEXT_V": "Text", "NUMBER_V": "Number", "SWITCH_V": "Switch", "BLOB_V": "BLOB"}.get(vn)
+            if kind is None:
+                continue
+            value = {"Text": "same element", "Number": "12.5", "Switch": "On", "BLOB": base64.b64encode(b"xyz").decode()}[kind]
+            mark = conn.mark()
+            await conn.send(new_vec(kind, "DEV", vn, [one_child(kind, en, value)]))
+            ctx.count("same_element_followup_writes")
+            if tap.escaped:
+                m, e = tap.escaped[0]
+                ctx.violate(f"valid-write-to-same-element-raises:{type(e).__name__}", f"{label}: valid write to {vn}.{en} afterwards raised {e!r}", case, {"xml": text})
+                return
+            ga, va = "g", {"TEXT_V": "t", "NUMBER_V": "n", "SWITCH_V": "s", "BLOB_V": "b"}[vn]
+            eattr = next(e["attr"] for e in next(v for _, _, _, v in D.locate(specs[0]) if v["name"] == vn)["elements"] if e["name"] == en)
+            got = D.element_of(drivers[0], ga, va, eattr).value
+            if kind == "Text":
+                ok = got == "same element"
+            elif kind == "Number":
+                ok = isinstance(got, (int, float)) and abs(float(got) - 12.5) < 1e-9
+            elif kind == "Switch":
+                ok = got == "On"
+            else:
+                ok = got is not None and getattr(got, "binary", None) == b"xyz"
+            if not ok:
+                ctx.violate(f"valid-write-to-same-element-not-applied:{kind}:{label.split('>')[0]}",
+                            f"{label}: a valid write to {vn}.{en} sent afterwards was not applied (element holds {got!r})", case, {"xml": text})
+                return
+            acks = [v for v in conn.received_views(mark) if v[0] == f"set{kind}Vector"] if (kind != "BLOB") else [1]
+            if not acks:
+                ctx.violate(f"valid-write-to-same-element-not-acknowledged:{kind}", f"{label}: no set{kind}Vector came back", case, {"xml": text})
+                return
+            break
         # later device traffic reaches this and the other connection
         m1, m2 = conn.mark(), other.mark()
         D.element_of(drivers[0], "g", "t", "e0").value = "after"
